@@ -3,6 +3,7 @@ package interp
 import (
 	"go/ast"
 	"go/build"
+	"go/build/constraint"
 	"go/parser"
 	"path"
 	"path/filepath"
@@ -19,6 +20,14 @@ func (interp *Interpreter) buildOk(ctx *build.Context, name, src string) (bool, 
 	if err != nil {
 		return false, err
 	}
+	if x := goBuildExpr(f.Comments); x != nil {
+		// A //go:build line takes precedence over // +build lines.
+		if !x.Eval(func(tag string) bool { return buildTagOk(ctx, tag) }) {
+			return false, nil
+		}
+		setYaegiTags(ctx, f.Comments)
+		return true, nil
+	}
 	for _, g := range f.Comments {
 		// in file, evaluate the AND of multiple line build constraints
 		for _, line := range strings.Split(strings.TrimSpace(g.Text()), "\n") {
@@ -29,6 +38,22 @@ func (interp *Interpreter) buildOk(ctx *build.Context, name, src string) (bool, 
 	}
 	setYaegiTags(ctx, f.Comments)
 	return true, nil
+}
+
+// goBuildExpr returns the expression of the first //go:build line found
+// in the comments preceding the package clause, or nil if there is none.
+func goBuildExpr(comments []*ast.CommentGroup) constraint.Expr {
+	for _, g := range comments {
+		for _, c := range g.List {
+			if !constraint.IsGoBuild(c.Text) {
+				continue
+			}
+			if x, err := constraint.Parse(c.Text); err == nil {
+				return x
+			}
+		}
+	}
+	return nil
 }
 
 // buildLineOk returns true if line is not a build constraint or
@@ -71,6 +96,10 @@ func buildTagOk(ctx *build.Context, s string) (r bool) {
 	case s == ctx.GOOS:
 		r = true
 	case s == ctx.GOARCH:
+		r = true
+	case s == "unix" && unixOs[ctx.GOOS]:
+		r = true
+	case s == "linux" && ctx.GOOS == "android", s == "solaris" && ctx.GOOS == "illumos", s == "darwin" && ctx.GOOS == "ios":
 		r = true
 	case len(s) > 4 && s[:4] == "go1.":
 		if n, err := strconv.Atoi(s[4:]); err != nil {
@@ -200,4 +229,20 @@ var knownArch = map[string]bool{
 	"ppc64le":  true,
 	"s390x":    true,
 	"wasm":     true,
+}
+
+// unixOs lists the operating systems matching the "unix" build tag.
+var unixOs = map[string]bool{
+	"aix":       true,
+	"android":   true,
+	"darwin":    true,
+	"dragonfly": true,
+	"freebsd":   true,
+	"hurd":      true,
+	"illumos":   true,
+	"ios":       true,
+	"linux":     true,
+	"netbsd":    true,
+	"openbsd":   true,
+	"solaris":   true,
 }
